@@ -23,12 +23,14 @@ ENCODES = [
     "spsdk.image.hab.segments.CsfHabSegment.get_dek_from_config", "spsdk.image.hab.segments.CsfHabSegment.generate_nonce",
     "spsdk.utils.misc.load_hex_string", "spsdk.crypto.rng.random_bytes",
 ]
-BOUNDS = ("every ordered pair (first artifact kind, second artifact kind) over 14 artifact kinds in one interpreter; the RNG "
+BOUNDS = ("a parent that built an SB2.1 image forks two workers which each build one artifact (12 kinds); every ordered pair (first artifact kind, second artifact kind) over 14 artifact kinds in one interpreter; the RNG "
           "outcome of every draw is symbolic; module import itself runs under the RNG stub so that import-time and "
           "definition-time draws are tagged")
 OUTSIDE = ("quality of secrets.token_bytes; 'across interpreter restarts' is decided as 'no secret depends on an "
            "import-phase draw'; longer histories than two constructions")
-STUBS = ["spsdk.crypto.rng.random_bytes -> fresh symbolic bytes tagged with the drawing phase",
+STUBS = ["secrets.token_bytes as imported by spsdk.crypto.rng -> fresh symbolic bytes tagged with the drawing phase (the real "
+         "random_bytes runs on top of it)", "fork(): symbolically a copy of the module-level objects of spsdk.crypto.rng taken at "
+         "the fork point and restored for each worker; concretely a real os.fork()",
          "hab.segments.write_file -> recorder (the DEK file is not written symbolically)"]
 MUST_REACH = ["c17\\..*"]
 OPTS = {"quick": {"case_timeout_s": 200}, "thorough": {"case_timeout_s": 600}}
@@ -51,13 +53,14 @@ def setup(symbolic):
         import z3
         import spsdk.crypto.rng as RNG
 
-        def random_bytes(length):
+        def token_bytes(length=32):
             COUNT[0] += 1
             name = f"rng.{PHASE[0]}.{COUNT[0]}"
             b = SymBytes([SymInt._raw(z3.ZeroExt(1, z3.BitVec(f"{name}[{i}]", 8)), 0, 255) for i in range(length)])
             DRAWS.append((PHASE[0], b))
             return b
-        loader.patch_everywhere(RNG.random_bytes, random_bytes)
+        # the stub sits at the system generator: spsdk.crypto.rng.random_bytes itself is executed
+        RNG.token_bytes = token_bytes
     PHASE[0] = "import"
     import spsdk.sbfile.sb2.images as IMG
     import spsdk.image.mbi.mbi as MBI
@@ -142,8 +145,98 @@ def make(kind, tmpdir):
     raise ValueError(kind)
 
 
+def _rng_state():
+    """what a fork() duplicates, as far as the random source is concerned: the module-level objects of spsdk.crypto.rng"""
+    import copy
+    import types
+    import spsdk.crypto.rng as RNG
+    return {k: copy.deepcopy(v) for k, v in vars(RNG).items()
+            if not k.startswith("__") and not callable(v) and not isinstance(v, (types.ModuleType, type))}
+
+
+def _rng_restore(state):
+    import copy
+    import spsdk.crypto.rng as RNG
+    vars(RNG).update(copy.deepcopy(state))
+
+
+def _in_child(kind, tmpdir):
+    """concretely: a real fork(); the child builds the artifact and reports its secrets"""
+    import pickle
+    r, w = os.pipe()
+    pid = os.fork()
+    if pid == 0:
+        code = 1
+        try:
+            os.close(r)
+            out = {k: bytes(v[0]) for k, v in make(kind, tmpdir).items()}
+            with os.fdopen(w, "wb") as f:
+                pickle.dump(out, f)
+            code = 0
+        finally:
+            os._exit(code)
+    os.close(w)
+    with os.fdopen(r, "rb") as f:
+        data = f.read()
+    os.waitpid(pid, 0)
+    return pickle.loads(data)
+
+
+def h_fork(env, c):
+    """A parent process that has already drawn random values forks two workers; each builds an artifact of its own.
+    Every secret of a worker's artifact is a draw made by that worker after the fork."""
+    tmpdir = tempfile.mkdtemp(prefix="c17_")
+    try:
+        if not env.symbolic:
+            make(c["first"], tmpdir)
+            a, b = _in_child(c["second"], tmpdir), _in_child(c["second"], tmpdir)
+            for name in sorted(a):
+                env.prove(a[name] != b[name], "c17.fork.secret_is_a_draw_made_after_the_fork_up_to_documented_mask")
+                env.satisfiable(a[name] != b[name], "c17.fork.workers_not_forced_to_the_same_secret")
+            return
+        del DRAWS[:]
+        PHASE[0] = "A1"
+        make(c["first"], tmpdir)
+        state = _rng_state()
+        PHASE[0] = "W1"
+        s1 = make(c["second"], tmpdir)
+        _rng_restore(state)
+        PHASE[0] = "W2"
+        s2 = make(c["second"], tmpdir)
+        PHASE[0] = "after"
+        from symx.core import Or, And
+        from symx.sbytes import items_of
+        w2 = [b for ph, b in DRAWS if ph == "W2"]
+        for name in sorted(s2):
+            sec, mask = s2[name]
+            items = items_of(sec)
+            if name == "key_and_ctr":
+                cands = [And(*[Or(*[x == d for b in w2 for d in b.items]) for x in items])]
+            else:
+                cands = []
+                live = [i for i in range(len(items)) if not mask or mask.get(i, 0xFF) != 0]
+                for b in w2:
+                    if len(b.items) < len(live):
+                        continue
+                    conj = []
+                    for i, x in enumerate(items):
+                        m = 0xFF if not mask or i not in mask else mask[i]
+                        conj.append(x == ((b.items[i] & m) if (m and i < len(b.items)) else 0))
+                    cands.append(And(*conj))
+            env.prove(Or(*cands) if cands else False, "c17.fork.secret_is_a_draw_made_after_the_fork_up_to_documented_mask")
+            o = items_of(s1[name][0])
+            env.satisfiable(Or(*[x != y for x, y in zip(items, o)]) if len(o) == len(items) else True,
+                            "c17.fork.workers_not_forced_to_the_same_secret")
+    finally:
+        shutil.rmtree(tmpdir, ignore_errors=True)
+
+
 def cases(tier):
     cs = []
+    for k2 in KINDS:
+        if k2.startswith("hab_dek"):
+            continue          # (the DEK file left behind in the shared directory is the subject of the pair cases)
+        cs.append({"id": f"fork/sb21->{k2}|{k2}", "h": "fork", "first": "sb21", "second": k2})
     for k2 in KINDS:
         for k1 in KINDS:
             if tier == "quick" and k1 != k2 and KINDS.index(k1) % 3 != KINDS.index(k2) % 3:
